@@ -171,6 +171,17 @@ func (i *interpreter) where() string {
 	return s + "]"
 }
 
+func (i *interpreter) whereShort() string {
+	f := i.curFrame()
+	for f != nil && (f.fn.Pkg == nil || !strings.HasPrefix(f.fn.Pkg.Pkg.Path(), "github.com/thanos-community/promql-engine") || strings.Contains(f.fn.Pkg.Pkg.Path(), "zzverif")) {
+		f = f.caller
+	}
+	if f == nil {
+		return ""
+	}
+	return " in " + f.fn.String()
+}
+
 func (i *interpreter) curFrame() *frame {
 	if i.sched != nil && i.sched.cur != nil {
 		return i.sched.cur.top
